@@ -18,7 +18,7 @@ func zzKeyBytes(name string, max int) []byte {
 	return b[:n]
 }
 
-//zz:harness unwind=80 panic=violation:M1.VerifyProof-never-panics maxpaths=60000 timebudget=900
+//zz:harness unwind=80 panic=violation:M1.VerifyProof-never-panics maxpaths=200000 timebudget=1800 param.keybits=24
 //zz:reach M1.returned
 func ZZ_C16_M1_malformed_proof_no_panic() {
 	s := &SMT{keyBitLength: zzParam("keybits", 8)}
